@@ -90,13 +90,15 @@ HandleDeprecated(d, frules, enforceNew) ==
        THEN OrBody(d.body, d.dep.body)
        ELSE d.body
 
-RECURSIVE MergeDefaults(_, _, _, _)
-MergeDefaults(rules, frules, i, enforceNew) ==
-  IF i > Len(Defaults) THEN rules
+\* only the first n registered defaults exist yet (register_default may be called late)
+RECURSIVE MergeDefaultsN(_, _, _, _, _)
+MergeDefaultsN(rules, frules, i, enforceNew, n) ==
+  IF i > n THEN rules
   ELSE LET d == Defaults[i] IN
-       IF rules[d.name].k # "none" THEN MergeDefaults(rules, frules, i + 1, enforceNew)
-       ELSE MergeDefaults([rules EXCEPT ![d.name] = IF d.dep.name = "" THEN d.body ELSE HandleDeprecated(d, frules, enforceNew)],
-                          frules, i + 1, enforceNew)
+       IF rules[d.name].k # "none" THEN MergeDefaultsN(rules, frules, i + 1, enforceNew, n)
+       ELSE MergeDefaultsN([rules EXCEPT ![d.name] = IF d.dep.name = "" THEN d.body ELSE HandleDeprecated(d, frules, enforceNew)],
+                           frules, i + 1, enforceNew, n)
+MergeDefaults(rules, frules, i, enforceNew) == MergeDefaultsN(rules, frules, i, enforceNew, Len(Defaults))
 
 (***************************************************************************)
 (* Enforcer.load_rules (use_conf, overwrite mode)                          *)
@@ -132,10 +134,11 @@ PreMerge(st0, fs, dirs, force, overwrite) ==
                       ELSE (IF overwrite THEN [st3 EXCEPT !.rules = NoRules, !.frules = NoRules] ELSE st3)
           IN WalkDirs(base, ex, 1, fs)
      ELSE st3
-LoadRulesOv(st0, fs, dirs, force, enforceNew, overwrite) ==
+LoadRulesOvN(st0, fs, dirs, force, enforceNew, overwrite, n) ==
   LET st4 == PreMerge(st0, fs, dirs, force, overwrite)
       \* 5. registered defaults for names still absent
-  IN [st4 EXCEPT !.rules = MergeDefaults(st4.rules, st4.frules, 1, enforceNew)]
+  IN [st4 EXCEPT !.rules = MergeDefaultsN(st4.rules, st4.frules, 1, enforceNew, n)]
+LoadRulesOv(st0, fs, dirs, force, enforceNew, overwrite) == LoadRulesOvN(st0, fs, dirs, force, enforceNew, overwrite, Len(Defaults))
 
 (***************************************************************************)
 (* Beyond the listed properties: the deprecation warnings one load_rules   *)
@@ -148,21 +151,21 @@ LoadRulesOv(st0, fs, dirs, force, enforceNew, overwrite) ==
 (*              changing and the old one is OR-ed in (enforce_new_defaults *)
 (*              off, name not overridden) - the two use the same text      *)
 (***************************************************************************)
-RECURSIVE WarnFrom(_, _, _, _)
-WarnFrom(rules, frules, i, enforceNew) ==
-  IF i > Len(Defaults) THEN <<>>
+RECURSIVE WarnFrom(_, _, _, _, _)
+WarnFrom(rules, frules, i, enforceNew, nr) ==
+  IF i > nr THEN <<>>
   ELSE LET d == Defaults[i]
            rem == IF d.removal = 1 /\ frules[d.name].k # "none" THEN << <<"removal", d.name>> >> ELSE <<>>
-       IN IF rules[d.name].k # "none" THEN rem \o WarnFrom(rules, frules, i + 1, enforceNew)
+       IN IF rules[d.name].k # "none" THEN rem \o WarnFrom(rules, frules, i + 1, enforceNew, nr)
           ELSE LET ren == d.dep.name # "" /\ d.dep.name # d.name /\ d.dep.name \in Names /\ frules[d.dep.name].k # "none"
                    governs == ren /\ frules[d.dep.name] # Alias(d.name) /\ frules[d.name].k = "none"
                    chg == d.dep.name # "" /\ ~governs /\ ~enforceNew /\ d.dep.body # d.body /\ frules[d.name].k = "none"
                    body == IF d.dep.name = "" THEN d.body ELSE HandleDeprecated(d, frules, enforceNew)
                IN rem \o (IF ren THEN << <<"deprecated", d.name>> >> ELSE <<>>)
                       \o (IF chg THEN << <<"deprecated", d.name>> >> ELSE <<>>)
-                      \o WarnFrom([rules EXCEPT ![d.name] = body], frules, i + 1, enforceNew)
-LoadWarnings(st0, fs, dirs, force, enforceNew, overwrite) ==
-  LET st4 == PreMerge(st0, fs, dirs, force, overwrite) IN WarnFrom(st4.rules, st4.frules, 1, enforceNew)
+                      \o WarnFrom([rules EXCEPT ![d.name] = body], frules, i + 1, enforceNew, nr)
+LoadWarnings(st0, fs, dirs, force, enforceNew, overwrite, nr) ==
+  LET st4 == PreMerge(st0, fs, dirs, force, overwrite) IN WarnFrom(st4.rules, st4.frules, 1, enforceNew, nr)
 
 LoadRules(st0, fs, dirs, force, enforceNew) == LoadRulesOv(st0, fs, dirs, force, enforceNew, TRUE)
 
@@ -205,9 +208,10 @@ C11Body(d, fs, dirs, enforceNew) ==
      ELSE IF ~enforceNew /\ d.dep.body # d.body THEN OrBody(d.body, d.dep.body)
      ELSE d.body
 
-FreshPolicy(fs, dirs, enforceNew) ==
+FreshPolicyN(fs, dirs, enforceNew, nr) ==
   [n \in Names |->
-     IF \E i \in 1..Len(Defaults) : Defaults[i].name = n
-     THEN C11Body(Defaults[CHOOSE i \in 1..Len(Defaults) : Defaults[i].name = n], fs, dirs, enforceNew)
+     IF \E i \in 1..nr : Defaults[i].name = n
+     THEN C11Body(Defaults[CHOOSE i \in 1..nr : Defaults[i].name = n], fs, dirs, enforceNew)
      ELSE FileDef(n, fs, dirs)]
+FreshPolicy(fs, dirs, enforceNew) == FreshPolicyN(fs, dirs, enforceNew, Len(Defaults))
 =============================================================================
